@@ -172,7 +172,7 @@ def record_epoch_df(df, sig_len, L, lab=0):
     return {'op': 'epoch_df', 'flat': project_rows(df), 'sigLen': int(sig_len), 'L': int(L), 'out': out, 'relabel': 'flat', 'opts': [], 'raised': raised}
 
 
-def record_epochs2d(case, L, per_epoch, rng):
+def record_epochs2d(case, L, per_epoch, rng, layout=0):
     """compute_features_2d(axis=None) on the signal reshaped into epochs of length L, vs the analysis of the flattened signal."""
     from bycycle.features import compute_features
     from bycycle.group import compute_features_2d
@@ -180,7 +180,8 @@ def record_epochs2d(case, L, per_epoch, rng):
     o.pop('return_samples', None)
     n_ep = len(case['sig']) // L
     sig = case['sig'][:n_ep * L]
-    sigs = sig.reshape(n_ep, L)
+    import pool_tv
+    sigs = pool_tv.vary(sig.reshape(n_ep, L), layout % 4)          # the same epochs in another memory layout (Fortran order, strided / transposed view)
     method = o['burst_method']
     if per_epoch:
         kw = []
@@ -212,8 +213,10 @@ def record_epochs2d(case, L, per_epoch, rng):
         try:
             # the same option objects are used for two consecutive calls; the SECOND result is judged against the options as written
             shared = copy.deepcopy(kw)
-            compute_features_2d(sigs.copy(), case['fs'], case['f_range'], compute_features_kwargs=shared, axis=None)
-            dfs = compute_features_2d(sigs.copy(), case['fs'], case['f_range'], compute_features_kwargs=shared, axis=None)
+            compute_features_2d(sigs, case['fs'], case['f_range'], compute_features_kwargs=shared, axis=None)
+            dfs = compute_features_2d(sigs, case['fs'], case['f_range'], compute_features_kwargs=shared, axis=None)
+            if not np.array_equal(sigs, sig.reshape(n_ep, L)):
+                raise AssertionError('the array of epochs was modified')
             # attach ids by matching the un-shifted closing extremum (unique per cycle) - an index lookup, not a judgement
             nxt_col = PEAK[5] if 'sample_peak' in ref.columns else TROUGH[5]
             by_next = {int(v): int(i) for v, i in zip(ref[nxt_col].values, ref['rowid'].values)}
